@@ -1,4 +1,5 @@
 pub mod c11;
+pub mod dap;
 pub mod det;
 pub mod natcat;
 pub mod sem;
@@ -19,6 +20,8 @@ pub fn dispatch(mode: &str, engine: &str, rest: &[String]) -> anyhow::Result<()>
         ("record", "opt") => sem::record_opt(rest),
         ("record", "det") => det::record(rest),
         ("replay", "frz") => sem::replay_frozen(rest),
+        ("replay", "dap") => dap::replay(rest),
+        ("record", "inst") => dap::record_inst(rest),
         _ => anyhow::bail!("unknown mode/engine {} {}", mode, engine),
     }
 }
